@@ -182,7 +182,7 @@ def seeded_variants(root: pathlib.Path, prop: str):
         if not mp.exists():
             continue
         meta = json.loads(mp.read_text())
-        if meta.get("property") != prop or meta.get("static_reach") == "out-of-reach":
+        if meta.get("property") != prop or meta.get("static_reach") == "out-of-reach" or meta.get("obsolete"):
             continue
         files = meta.get("files") or []
         tmp = pathlib.Path(tempfile.mkdtemp(prefix="variant_"))
